@@ -204,6 +204,30 @@ end
 instance : DecidableEq Stmt := fun a b =>
   decidable_of_iff (Stmt.beq a b = true) ⟨Stmt.beq_eq a b, fun h => h ▸ Stmt.beq_refl a⟩
 
+/-! ## Write structure of the mongokit.Collection methods (data; DESIGN §4.1 `Gen/CollWrites`) -/
+
+/-- the steps of a Collection method that matter to ownership and to C15, in source order -/
+inductive CollStep
+  | sort | filter | skip
+  | cloneDocs                     -- `bsonkit.CloneList(list)` / `bsonkit.Clone(repl)`
+  | extract                       -- `Extract(query)`: a fresh document
+  | apply (target : String)       -- `Update(newList, …)` / `Apply(doc, …)`: IN PLACE on `target`
+  | idCheck                       -- `sameValue(… "_id" …)`
+  | putId (target : String)       -- `bsonkit.Put(target, "_id", …)`: in place on `target`
+  | idxRemove | idxAdd            -- `index.Remove(doc)` / `index.Add(doc)` on an index of `c.Indexes`
+  | idxBuild                      -- `index.Build(c.Documents.List)` on the index just created
+  | setAdd | setReplace | setRemove   -- `c.Documents.Add/Replace/Remove`
+  | mapPut | mapDelete            -- `c.Indexes[name] = index` / `delete(c.Indexes, name)`
+  | forBegin (over : String) | forEnd
+  | other (src : String)          -- a call on `c.` / `index.` the extractor does not know
+  deriving DecidableEq, Repr
+
+structure CollProg where
+  name : String
+  params : List String
+  steps : List CollStep
+  deriving DecidableEq, Repr
+
 /-! ## Interpreter -/
 
 structure TxnState where
